@@ -21,6 +21,7 @@ DECIDED = [
     'R2 construction raises for an unknown focal plane, for SFP without calibration distance, and exactly when a '
     'click magnitude is <= 0',
     'R3 the row-based entry forwards (distance, drop_adj, windage_adj, magnification) in the right roles',
+    'R1b for FFP and LWIR the click count is the ratio of the angles also when the clicks are displayed in the tangent-based units (CmPer100m, InchesPer100Yd)',
 ]
 NOT_DECIDED = ['nothing further: linearity and sign follow from the formulas; for clicks displayed in the two '
                'tangent-based units the SFP re-wrap scales the tangent (difference O(theta^2)): recorded assumption']
